@@ -46,6 +46,7 @@ func SwarmProgCfg(r *Rand) ProgCfg {
 	c.Tree.MaxDepth = r.Range(2, 4)
 	c.Tree.MaxWidth = r.Range(2, 5)
 	c.Tree.WideP = PickAny(r, []float64{0, 0.05, 0.3})
+	c.Tree.BigP = PickAny(r, []float64{0, 0, 0.05, 0.2})
 	if r.Chance(0.3) {
 		c.Tree.Strs = append(append([]string{}, PlainStrs...), DollarStrs...)
 	}
